@@ -1000,6 +1000,13 @@ func (bc *BlockChain) WriteBlockWithState(block *types.Block, receipts []*types.
 	if err := WriteBlockReceipts(batch, block.Hash(), block.NumberU64(), receipts); err != nil {
 		return NonStatTy, err
 	}
+	// Flush the block itself before any head pointer can name it: the
+	// fork-choice section below writes canonical hashes and head pointers
+	// directly to the database.
+	if err := batch.Write(); err != nil {
+		return NonStatTy, err
+	}
+	batch.Reset()
 	// If the total difficulty is higher than our known, add it to the canonical chain
 	// Second clause in the if statement reduces the vulnerability to selfish mining.
 	// Please refer to http://www.cs.cornell.edu/~ie53/publications/btcProcFC.pdf
